@@ -14,32 +14,64 @@ def parseVal (s : String) : Option (T × Int) :=
   | 't' :: rest => (String.ofList rest).toInt?.map fun x => (T.s2, x)
   | _ => none
 
-def parseOp (s : String) : Option Op :=
+/-- sub-operation of a held controller reference (`hr`): `r<p>` retarget, `t<tag>` setTag, `g` read,
+`q<p>` getControllers(forPath:) in between, `d` delete (last only).  The machine has no held references:
+every use of the reference is the machine's operation on the controller id — that a reference loaded once
+behaves like a fresh `getController` at every use is part of what the stream compares. -/
+def parseSub (a id : Nat) (s : String) : Option Op :=
+  match s.toList with
+  | 'r' :: rest => do some (.retarget a id (← (String.ofList rest).toNat?))
+  | 't' :: rest => some (.setTag a id (String.ofList rest))
+  | ['g'] => some (.getController a id)
+  | 'q' :: rest => do some (.getControllers a (← (String.ofList rest).toNat?))
+  | ['d'] => some (.delete a id)
+  | _ => none
+
+def isDelete : Op → Bool
+  | .delete .. => true
+  | _ => false
+
+/-- one operation token = one or several machine operations (one log line each) -/
+def parseOp (s : String) : Option (List Op) :=
   match s.splitOn "," with
-  | ["is", a, p, t] => do some (.issue (← a.toNat?) (← p.toNat?) (← parseT t))
-  | ["rt", a, id, p] => do some (.retarget (← a.toNat?) (← id.toNat?) (← p.toNat?))
-  | ["dl", a, id] => do some (.delete (← a.toNat?) (← id.toNat?))
-  | ["tg", a, id, t] => do some (.setTag (← a.toNat?) (← id.toNat?) t)
-  | ["gc", a, id] => do some (.getController (← a.toNat?) (← id.toNat?))
-  | ["gs", a, p] => do some (.getControllers (← a.toNat?) (← p.toNat?))
-  | ["fe", a, p] => do some (.forEachController (← a.toNat?) (← p.toNat?))
-  | ["pb", a, id, q] => do some (.publish (← a.toNat?) (← id.toNat?) (← q.toNat?))
-  | ["ub", a, q] => do some (.unpublish (← a.toNat?) (← q.toNat?))
-  | ["ex", a, q] => do some (.exists_ (← a.toNat?) (← q.toNat?))
-  | ["gp", a, q, t] => do some (.get (← a.toNat?) (← q.toNat?) (← parseT t))
-  | ["bp", a, q, t] => do some (.borrow (← a.toNat?) (← q.toNat?) (← parseT t))
-  | ["ip", a, id, n, r] => do some (.inboxPublish (← a.toNat?) (← id.toNat?) n (← r.toNat?))
-  | ["iu", a, n, t] => do some (.inboxUnpublish (← a.toNat?) n (← parseT t))
-  | ["ic", a, n, pv, t] => do some (.inboxClaim (← a.toNat?) n (← pv.toNat?) (← parseT t))
+  | ["is", a, p, t] => do some [.issue (← a.toNat?) (← p.toNat?) (← parseT t)]
+  | ["im", a, p, t, n] => do
+    let n ← n.toNat?
+    if n = 0 || n > 200 then none else some (List.replicate n (.issue (← a.toNat?) (← p.toNat?) (← parseT t)))
+  | ["rt", a, id, p] => do some [.retarget (← a.toNat?) (← id.toNat?) (← p.toNat?)]
+  | ["hr", a, id, subs] => do
+    let a ← a.toNat?
+    let id ← id.toNat?
+    let ops ← (subs.splitOn ".").mapM (parseSub a id)
+    -- nothing is called on the reference after `delete` (it would be an error of the program)
+    if ops.isEmpty || (ops.dropLast.any isDelete) then none else some ops
+  | ["dl", a, id] => do some [.delete (← a.toNat?) (← id.toNat?)]
+  | ["tg", a, id, t] => do some [.setTag (← a.toNat?) (← id.toNat?) t]
+  | ["gc", a, id] => do some [.getController (← a.toNat?) (← id.toNat?)]
+  | ["gs", a, p] => do some [.getControllers (← a.toNat?) (← p.toNat?)]
+  | ["fe", a, p] => do some [.forEachController (← a.toNat?) (← p.toNat?)]
+  | ["pb", a, id, q] => do some [.publish (← a.toNat?) (← id.toNat?) (← q.toNat?)]
+  | ["ub", a, q] => do some [.unpublish (← a.toNat?) (← q.toNat?)]
+  | ["ex", a, q] => do some [.exists_ (← a.toNat?) (← q.toNat?)]
+  | ["gp", a, q, t] => do some [.get (← a.toNat?) (← q.toNat?) (← parseT t)]
+  | ["bp", a, q, t] => do some [.borrow (← a.toNat?) (← q.toNat?) (← parseT t)]
+  | ["cb", a, q, g, w] => do some [.getBorrow (← a.toNat?) (← q.toNat?) (← parseT g) (← parseT w)]
+  | ["rp", a, q, g, q2] => do some [.republish (← a.toNat?) (← q.toNat?) (← parseT g) (← q2.toNat?)]
+  | ["kb", a, id, w] => do some [.ctrlBorrow (← a.toNat?) (← id.toNat?) (← parseT w)]
+  | ["ip", a, id, n, r] => do some [.inboxPublish (← a.toNat?) (← id.toNat?) n (← r.toNat?)]
+  | ["iu", a, n, t] => do some [.inboxUnpublish (← a.toNat?) n (← parseT t)]
+  | ["ic", a, n, pv, t] => do some [.inboxClaim (← a.toNat?) n (← pv.toNat?) (← parseT t)]
   | ["sv", a, p, v] => do
     let (t, x) ← parseVal v
-    some (.save (← a.toNat?) (← p.toNat?) t x)
-  | ["ld", a, p] => do some (.load (← a.toNat?) (← p.toNat?))
-  | ["pn"] => some .panic
+    some [.save (← a.toNat?) (← p.toNat?) t x]
+  | ["ld", a, p] => do some [.load (← a.toNat?) (← p.toNat?)]
+  | ["pn"] => some [.panic]
   | _ => none
 
 def parseHist (s : String) : Option (List (List Op)) :=
-  (s.splitOn "|").mapM fun tx => (tx.splitOn ";").mapM parseOp
+  (s.splitOn "|").mapM fun tx => do
+    let groups ← (tx.splitOn ";").mapM parseOp
+    some groups.flatten
 
 def tyStr : T → String
   | .s => "&C.S" | .s2 => "&C.S2" | .i => "&{C.I}" | .any => "&AnyStruct"
@@ -59,7 +91,7 @@ def showObs (op : Op) : Obs → String
   | .id n => toString n
   | .done => (match op with
     | .retarget .. => "rt" | .delete .. => "dl" | .setTag .. => "tg" | .publish .. => "pb"
-    | .inboxPublish .. => "ip" | .save .. => "sv" | _ => "?")
+    | .inboxPublish .. => "ip" | .save .. => "sv" | .republish .. => "rp" | _ => "?")
   | .nil => "nil"
   | .ctrl id c => s!"{id}:/storage/p{c.target}:{tyStr c.ty}:{c.tag}"
   | .ids l => "[" ++ " ".intercalate ((l.foldr insertSortedNat []).map toString) ++ "]"
@@ -69,6 +101,11 @@ def showObs (op : Op) : Obs → String
   | .got id ck => toString id ++ (if ck then "+" else "-")
   | .ref none => "none"
   | .ref (some v) => (match op with | .borrow _ _ w => showRef w v | _ => "?")
+  | .capRef id none => s!"{id}:-:none"
+  | .capRef id (some v) =>
+    (match op with
+      | .getBorrow _ _ _ w | .ctrlBorrow _ _ w => s!"{id}:+:{showRef w v}"
+      | _ => "?")
 
 def showAbort : Abort → String
   | .overwrite => "overwrite" | .cast => "cast" | .panic => "panic" | .internal => "internal"
@@ -87,12 +124,14 @@ def opKind : Op → String
   | .forEachController .. => "forEachController" | .publish .. => "publish" | .unpublish .. => "unpublish"
   | .exists_ .. => "exists" | .get .. => "get" | .borrow .. => "borrow" | .inboxPublish .. => "inboxPublish"
   | .inboxUnpublish .. => "inboxUnpublish" | .inboxClaim .. => "inboxClaim" | .save .. => "save"
-  | .load .. => "load" | .panic => "panic"
+  | .load .. => "load" | .panic => "panic" | .getBorrow .. => "getBorrow" | .republish .. => "republish"
+  | .ctrlBorrow .. => "ctrlBorrow"
 
 def obsTag (op : Op) (o : Obs) : String :=
-  opKind op ++ (match o with
+  opKind op ++ (match op with | .getBorrow _ _ g w => (if g = w then "" else "-retyped") | _ => "") ++ (match o with
     | .nil | .optId none | .ref none => "-nil" | .bool true => "-true" | .bool false => "-false"
     | .ids [] => "-empty" | .ids (_ :: _ :: _) => "-many" | .got 0 _ => "-invalid" | .got _ false => "-nocheck"
+    | .capRef 0 _ => "-invalid" | .capRef _ none => "-nocheck"
     | _ => "-ok")
 
 def txTags (tx : List Op) (o : TxObs) : List String :=
@@ -140,7 +179,9 @@ def judge (op : List String) (go : String) : Verdict :=
       let (_, obs) := runHist init hist
       let rendered := (hist.zip obs).map fun (tx, o) => showTx tx o
       let model := "|".intercalate rendered
-      let tags := dedup ((hist.zip obs).flatMap fun (tx, o) => txTags tx o)
+      let shape := (if (h.splitOn "hr,").length > 1 then ["held-reference"] else [])
+        ++ (if (h.splitOn "im,").length > 1 then ["many-controllers"] else [])
+      let tags := dedup (shape ++ (hist.zip obs).flatMap fun (tx, o) => txTags tx o)
       if go == model then .ok ("!nt" :: tags)
       else
         let d := firstDiff hist rendered (go.splitOn "|")
